@@ -700,6 +700,18 @@ def r5_parameter_rules(ctx):
             okm = rej and acc
             d = "sets differ -> never Ok: %s; sets equal -> Ok with no refusal on the way: %s" % (rej, acc)
         ctx.check(R, "vpp:mismatch-is-Err-and-match-is-Ok", okm, d, (vpp, bb))
+        # Added after adversary change C02-I (an early `return Ok(())` when the handler declares no path parameters skipped the
+        # comparison, so `/things/{id}` with a handler that ignores `id` was accepted): the endpoint is accepted only after the
+        # two sets were compared and found equal -- every Ok(..) return is reached only with the comparison established
+        bypass = None
+        if sw:
+            sbb, tb, fb = sw
+            same = fb if t["callee"].endswith("::ne") else tb
+            reach = vpp.reachable(0, avoid_edges=list(always_err_try_edges(vpp)) + [(sbb, same)])
+            bypass = [b2 for b2 in ok_return_blocks(vpp) if b2 in reach]
+        ctx.check(R, "vpp:Ok-only-after-the-sets-compared-equal", bypass is not None and bool(ok_return_blocks(vpp)) and not bypass,
+                  "Ok(..) returns of validate_path_parameters: %d, of which reachable without taking the `sets are equal` edge of the comparison: %s"
+                  % (len(ok_return_blocks(vpp)), len(bypass) if bypass is not None else "n/a (no branch on the comparison)"), (vpp, bypass[0] if bypass else bb))
     # ---------------- validate_named_parameters
     _vnp_rules(ctx, R)
 
